@@ -5,6 +5,7 @@ import GoCrypt.Props.Accept
 import GoCrypt.Props.C10General
 import GoCrypt.Props.TiWf
 import GoCrypt.Props.TypeInfoIR
+import GoCrypt.Props.CodecIR
 
 /-!
 # C20 — Unmarshal accepts only respellings of what Marshal would have written
@@ -103,4 +104,8 @@ theorem respell_reflexive_examples :
 #print axioms GoCrypt.TypeInfoIR.getTypeInfo_cold_eq_typeInfoOf
 #print axioms GoCrypt.TypeInfoIR.getTypeInfo_cold_eq_typeInfoOf_exact
 #print axioms GoCrypt.TypeInfoIR.example_outer_is_in_the_domain
+-- the Marshal side IS the current code (Props/CodecIR.lean)
+#print axioms GoCrypt.CodecIR.no_unknown_nodes
+#print axioms GoCrypt.CodecIR.marshal_eq_model
+#print axioms GoCrypt.CodecIR.marshal_eq_marshalRaw
 end GoCrypt.C20
